@@ -118,6 +118,9 @@ func (m *Matcher) Loop() {
 				prevCount = count
 				m.mergerCache = make(map[string]*Merger)
 			}
+		} else {
+			// The cache that was just emptied is being refilled for this count
+			prevCount = count
 		}
 
 		if merger == nil {
